@@ -2375,7 +2375,11 @@ func builtinIsType(env *LEnv, args *LVal) *LVal {
 		if typesym != env.Runtime.Registry.Lang+":typedef" {
 			return env.Errorf("first argument is not a valid type specifier: %v", typesym)
 		}
-		typesym = typespec.Cells[0].Cells[0].Str
+		name, _, ok := typedefParts(typespec)
+		if !ok {
+			return env.Errorf("first argument is not a well-formed typedef")
+		}
+		typesym = name.Str
 	}
 	t := GetType(v)
 	return Bool(t.Str == typesym)
